@@ -30,9 +30,9 @@ def parse_getmsg_obs(line):
     return dict(kind="msg", ret=ret, type=int(f[0]), raw=("" if f[1] == "-" else f[1]), emsg=f[2], ts=int(f[3]), sent=f[4], sow=f[5])
 
 
-def run_both(res, runner, cases, timeout=1800):
+def run_both(res, runner, cases, timeout=1800, shards=None):
     """Run implementation and model on the same cases; record disagreements. Returns (impl, model) lines or (None, None)."""
-    impl, e1 = common.run_lines(common.IMPL_BIN, runner, cases, timeout=timeout, mem_kb=8000000)
+    impl, e1 = common.run_lines(common.IMPL_BIN, runner, cases, timeout=timeout, mem_kb=8000000, shards=shards)
     model, e2 = common.run_lines(common.MODEL_BIN, runner, cases, timeout=timeout)
     if e1 or e2 or impl is None or model is None or len(impl) != len(cases) or len(model) != len(cases):
         res.corr_ok = False
